@@ -94,6 +94,8 @@ package xml
 // a quoted value runs to the first occurrence of its own quote; an unquoted one to white space or the tag's end
 //@   ensures[F,C11,local] @val-quoted: l.attrVal != nil && len(l.attrVal) > 0 && (l.attrVal[0] == '"' || l.attrVal[0] == '\'') ==> forall(k, 1, len(l.attrVal) - 1, l.attrVal[k] != l.attrVal[0])
 //@   ensures[F,C11,local] @val-unquoted: l.attrVal != nil && len(l.attrVal) > 0 && l.attrVal[0] != '"' && l.attrVal[0] != '\'' ==> forall(k, 0, len(l.attrVal), !xmlNameEnd(l.attrVal[k], l.attrVal[k+1]))
+// ... and it ends there: the last byte of a quoted value is its closing quote, unless the input stops (NUL) before one comes
+//@   ensures[F,C11,local] @val-quoted-end: l.attrVal != nil && len(l.attrVal) > 0 && (l.attrVal[0] == '"' || l.attrVal[0] == '\'') ==> (len(l.attrVal) >= 2 && l.attrVal[len(l.attrVal)-1] == l.attrVal[0]) || l.r.buf[l.r.pos] == 0
 //@   loop 4 invariant[F] (delim == '"' || delim == '\'') && l.r.buf[attrPos + l.r.start] == delim && attrPos + l.r.start < l.r.pos && forall(k, attrPos + l.r.start + 1, l.r.pos, l.r.buf[k] != delim)
 // white space (all four XML kinds) may stand between the name, '=' and the value: an attribute is reported without a value
 // only if the first byte after that white space is not '='
@@ -160,6 +162,9 @@ package xml
 //@   ensures[F,C11] @open: result0 == StartTagToken || result0 == StartTagPIToken ==> !old(l.inTag) && l.inTag
 //@   ensures[F,C11] @close: result0 == StartTagCloseToken || result0 == StartTagCloseVoidToken || result0 == StartTagClosePIToken ==> old(l.inTag) && !l.inTag
 //@   ensures[F,C11] @content: result0 == TextToken || result0 == CommentToken || result0 == CDATAToken || result0 == DOCTYPEToken || result0 == EndTagToken ==> !old(l.inTag) && !l.inTag
+// character data ends at the first '<': every '<' outside a tag opens markup
+//@   ensures[F,C11] @text-no-lt: result0 == TextToken ==> forall(k, 0, len(result1), result1[k] != '<')
+//@   loop * candidate[F] forall(k, old(l.r.pos), l.r.pos, l.r.buf[k] != '<')
 //@   ensures[F,C11] @nul: result0 == ErrorToken ==> l.err != nil || l.r.pos == len(l.r.buf)-1
 //@   ensures[F,C11] @no-nul: result0 != ErrorToken ==> forall(k, old(l.r.pos), l.r.pos, l.r.buf[k] != 0)
 //@   loop * candidate[F] forall(k, old(l.r.pos), l.r.pos, l.r.buf[k] != 0)
